@@ -13,6 +13,9 @@ CHECKS = {
  "C02": dict(engine="refmux", cat="exploration", ref="3.2",
    text="Random well-formed stream models (1..8 PIDs, PES bounded/unbounded, PSI units of 1..N sections over 1..6 packets, six table types) are packetised by an independent reference multiplexer with seeded split points (1..184, 1-byte first/last chunks), AF stuffing or trailing 0xFF, pointer fields and seeded interleaving, and read by the real Demuxer through a position-tracking reader: per PID the delivered sequence must equal the generated units (each once, in order, last unit before ErrNoMorePackets, no error) and a PAT/PMT must be returned with the reader positioned exactly at the end of its last packet, later sections of the unit needing no Read. A flagged sub-population carries spec-legal straddling sections (known finding K01/K02).",
    note="Trusted: refts encoders/packetiser and the expected-output builder (written from ISO 13818-1 / EN 300 468). Scope: every section of a unit starts in the unit's first packet; PAT precedes PMT packets."),
+ "C03": dict(engine="hostile-reader", cat="exploration", ref="3.3",
+   text="Random bytes (sync bytes planted at packet multiples, at random places or nowhere; empty, 1 byte, shorter than the 193-byte detection window), reference streams mutated at seeded positions and at targeted length-like fields, re-framed to 188+k, and truncation sweeps are fed through seekable/bufio/plain SimReaders with seeded chunk plans to the real Demuxer with packet size in {auto,188,192,204,189,300}, NextPacket / NextData / alternating, with and without skipper / parser. Per run: no panic; an error-returning call consumed input; ErrNoMorePackets within len(input)+16 calls and on each of the next 8; in[:k] behaves like in[:k - k mod size]; a 20 s supervisor turns a spinning run into a violation of class hang. Sampling of the input space.",
+   note="Trusted: SimReader bookkeeping and the per-run supervisor. With alternating APIs the end of the run is NextData's first ErrNoMorePackets (NextPacket reports the end of input while assembled units are still pending)."),
  "C04": dict(engine="muxhist", cat="exploration", ref="3.4",
    text="Seeded Muxer call histories (valid and invalid arguments, all six API calls, retransmit periods 1..50) on the real Muxer over a recording writer; after every call an independent ISO 13818-1 decoder re-reads everything accepted so far: 188-byte alignment, sync byte, AF+payload=184, PUSI placement, PES start code / pointer field, returned n == bytes accepted, rejected calls write nothing. Sampling of an unbounded history space: evidence, not proof.",
    note="Trusted: the refts reference decoder and the MuxModel (written from the standard, constants learned from output); the recording writer never fails in this engine (writer faults are C18)."),
